@@ -480,6 +480,19 @@ fn vectors(thorough: bool) -> Vec<(String, Vec<bool>)> {
             }
         }
     }
+    // (e) uniformly sparse vectors: many inventory entries with 32-bit spans, subinventories that spill,
+    // and their inverses (the same for the zero-selectors); a dense block in the middle of a sparse vector
+    for (g, count) in [(2049usize, 70usize), (4096, 100), (8191, 300), (70_000, 40)] {
+        let len = g * count + 17;
+        let b: Vec<bool> = (0..len).map(|i| i % g == g - 1).collect();
+        v.push((format!("one-every-{g}(len {len})"), b.clone()));
+        v.push((format!("zero-every-{g}(len {len})"), b.iter().map(|x| !x).collect()));
+        let mut m = b.clone();
+        for i in len / 2..(len / 2 + 3000).min(len) {
+            m[i] = i % 3 != 0;
+        }
+        v.push((format!("one-every-{g}(len {len}) with a dense block of 3000 bits in the middle"), m));
+    }
     // exact multiples of an inventory quantum followed by a ragged tail
     for q in [4096usize, 8192] {
         for extra in [0usize, 1, 100] {
